@@ -15,12 +15,14 @@ inductive Dist where
 /-- Python's `int(x)` on a float: truncation toward zero -/
 def truncRat (x : Rat) : Int := if x ≥ 0 then x.floor else -((-x).floor)
 
-/-- `_create_random_value_from_runtime` once the samples are drawn -/
+/-- `_create_random_value_from_runtime` once the samples are drawn
+    (after the F11 repair: with no sample above the mean the runtime is returned) -/
 def pickAboveMean (runtime : Nat) (samples : List Rat) : Except Err Rat :=
   let var := samples.filter (fun s => s > (runtime : Rat))      -- s[s > mu]
-  match var[var.length / 2]? with                                -- var[int(len(var)/2)]
-  | some v => .ok v
-  | none => .error .index
+  if var.length = 0 then .ok (runtime : Rat)                     -- if len(var) == 0: return runtime
+  else match var[var.length / 2]? with                           -- var[int(len(var)/2)]
+    | some v => .ok v
+    | none => .error .index
 
 /-- `generate_delay(task_runtime)`.
     `degreeZero` is `self.degree.value == 0`; `u` is `default_rng(seed).random()`. -/
